@@ -318,3 +318,71 @@ func F3(rc *RC) {
 		}
 	}
 }
+
+// F4: the protobuf / flatbuffers decoders install what is on the wire. On every path of
+// PBDecode and FBDecode that does not return an error, each element of the tensor's shape and of
+// its strides is stored from the corresponding wire field (an encoder may have written permuted
+// strides - a lazily transposed tensor - which no recomputation from the shape can recover), and
+// the data bytes are copied from the wire.
+func F4(rc *RC) {
+	rc.S.Declare("F4", "decoder completeness: on every non-error path PBDecode and FBDecode store shape[i] and strides[i] from the wire's Shape/Strides fields and copy the wire's data bytes into the tensor", 2)
+	type need struct{ target, source string }
+	table := map[string][]need{
+		"tensor.(*Dense).PBDecode": {{"$r.shape[", ".Shape"}, {"$r.strides[", ".Strides"}, {"copy(", ".Data"}},
+		"tensor.(*Dense).FBDecode": {{"$r.shape[", ".Shape("}, {"$r.strides[", ".Strides("}, {"copy(", ".DataBytes("}},
+	}
+	var keys []string
+	for k := range table {
+		keys = append(keys, k)
+	}
+	sort.Strings(keys)
+	for _, key := range keys {
+		fi := anchor(rc, "F4", key)
+		if fi == nil {
+			continue
+		}
+		pos := rc.P.Pos(fi.Decl.Pos())
+		_, tree := sCanon(rc, fi)
+		paths, ok := ir.EnumPaths(tree, 20000)
+		if !ok {
+			rc.S.Undec("F4", key, pos, "too many paths")
+			continue
+		}
+		var bad []string
+		n := 0
+		for _, p := range paths {
+			if p.Exit == "panic" || (p.Exit == "return" && (strings.HasPrefix(strings.TrimSpace(p.Ret), "errors.") || (strings.TrimSpace(p.Ret) != "nil" && !strings.Contains(p.Ret, "sanity()") && strings.Contains(p.Ret, "err")))) {
+				continue
+			}
+			n++
+			var lines []string
+			for _, st := range p.Steps {
+				lines = append(lines, strings.Split(ir.Render([]*ir.Node{st}), "\n")...)
+			}
+			for _, nd := range table[key] {
+				found := false
+				for _, l := range lines {
+					l = strings.TrimSpace(l)
+					if strings.HasPrefix(l, nd.target) || (nd.target == "copy(" && strings.HasPrefix(l, "copy(")) {
+						if strings.Contains(l, nd.source) {
+							found = true
+						}
+					}
+				}
+				if !found {
+					bad = append(bad, fmt.Sprintf("on the path [%s] nothing stores %s… from the wire field %s", firstWordsN(strings.Join(p.Guards, " && "), 120), strings.TrimSuffix(nd.target, "["), nd.source))
+				}
+			}
+		}
+		if n == 0 {
+			rc.S.Undec("F4", key, pos, "no successful path found")
+			continue
+		}
+		if len(bad) > 0 {
+			b := uniq(bad)
+			rc.S.Viol("F4", key, pos, strings.Join(b, "; ")).Sig = fmt.Sprintf("%d missing wire stores", len(b))
+		} else {
+			rc.S.Ok("F4", key, pos, fmt.Sprintf("%d successful path(s): shape, strides and data all come from the wire", n))
+		}
+	}
+}
